@@ -80,6 +80,26 @@ def main():
     else:
         proof = common.prove(pid)
     suites = []
+    # a relay that wedges (a task that never finishes, a lock that is never released) must not leave the check without a verdict:
+    # after the budget the check reports that it could not finish - which on the unchanged tree it does with a wide margin
+    budget = float(os.environ.get("VERIF_BUDGET_S", 900 if a.tier == "quick" else 4 * 3600))
+
+    def watchdog():
+        import faulthandler
+        time.sleep(budget)
+        s = common.Suite("harness")
+        s.rule = "the check did not finish within its time budget of %d s" % budget
+        s.disagree({"harness": "budget exceeded", "budget_s": budget}, "the suites of this check finish (they take a few minutes on the unchanged tree)",
+                   "still running after %d s: the code under test keeps the harness waiting (a wedged task / lock / query); no verdict could be reached" % budget)
+        try:
+            faulthandler.dump_traceback(file=sys.stderr)
+        except Exception:
+            pass
+        rc = common.conclude(pid, a.tier, seed, t0, proof, [s], getattr(mod, "ASSUMPTIONS", ()))
+        sys.stdout.flush()
+        os._exit(rc if rc else 1)
+    import threading
+    threading.Thread(target=watchdog, daemon=True).start()
     try:
         suites = mod.run(a.tier, seed)
         from . import app
